@@ -200,6 +200,9 @@ class World:
         self.digit_denoms = dict((d, "000" + d) for _, d in self.natives)
         for d in self.junk_denoms + sorted(self.digit_denoms.values()):
             bals.append(["attacker", d, str(BAL)])
+        # a worthless coin that sorts after every traded denom (tracked; only ever donated)
+        self.tail_denom = "zzzcoin"
+        bals.append(["attacker", self.tail_denom, str(BAL)])
         self.whale = whale
         if whale:
             # an account holding the largest representable amount of every native coin (used to fill a recipient up to
@@ -345,7 +348,7 @@ class World:
         contracts = [self.factory, self.router] + [p.addr for p in self.pairs]
         tok_contracts = [t[1] for t in self.tokens] + [p.lp for p in self.pairs] + [self.rogue]
         self.t_accounts = ACTORS + contracts + tok_contracts + self.extra_accounts
-        self.t_denoms = [d for _, d in self.natives] + sorted(self.lookalikes.values()) + self.addr_denoms
+        self.t_denoms = [d for _, d in self.natives] + sorted(self.lookalikes.values()) + self.addr_denoms + [self.tail_denom]
         self.t_tokens = tok_contracts
         self.t_contracts = contracts + tok_contracts
         self.srv.send({"op": "track", "accounts": self.t_accounts, "denoms": self.t_denoms,
